@@ -27,6 +27,10 @@ Inductive atom :=
 | ACred                    (* s.getValidatedUser(ctx, user, password): credentials carried by the request *)
 | ATok                     (* auth.DropTokenKeysForCtx(ctx): needs a valid login token in the request *)
 | ACheck (ks : list chk)
+| AInvLogin                (* s.removeUserFromLoginList(user): not a guard; records that the handler drops the
+                              target user's token login when the step's conditions hold *)
+| AInvSess                 (* s.SessManager.CloseSessionsForUser(user): closes the target user's sessions *)
+| AInvKeys                 (* auth.DropTokenKeys(user): invalidates every token of the target user *)
 | ASqlRead                 (* Engine.checkUserPermissions for a SELECT; never generated (see Auth/Policy.v) *)
 | ASqlWrite.               (* embedded/sql Engine.checkUserPermissions for a non-read-only statement;
                               never generated, appended by Auth/Policy.v for the SQL exec RPCs *)
